@@ -274,6 +274,28 @@ def gen_session(rng, n_steps, faults=False, cancel=True, with_drop=False, pauses
             labels.append(rng.choice(["D0", "D0", "D1", "D2", "D3", "D7", "D20"]))
         elif r < 0.93:
             labels.append("t" + str(rng.choice([1, 30, 50, 99, 100, 101, 250, 250, 31000, 45000, 3600000])))
+        elif r < 0.946 and pauses and rng.random() < 0.25:
+            # bursts: far more pending requests / reported changes / unpolled events than any bounded queue would hold
+            kind = rng.choice(["requests", "changes", "unpolled"])
+            if kind == "requests":
+                for _ in range(rng.choice([130, 150, 260])):
+                    rid += 1
+                    sp = spec("echo", f"r{rid}", "burst")
+                    labels.append(f"c{rid}:{sp}")
+                    info["requests"][rid] = ("c", [sp])
+            elif kind == "changes":
+                for i in range(rng.choice([260, 300, 4200])):
+                    name = SUBSYSTEMS[i % 14]
+                    labels.append("N:" + hexs(name))
+                    info["notified"].append(name)
+                labels += ["S*", "D0"]
+            else:
+                labels.append("q")
+                for i in range(rng.choice([260, 300])):
+                    name = SUBSYSTEMS[i % 14]
+                    labels += ["N:" + hexs(name), "S*", "D0"]
+                    info["notified"].append(name)
+                labels.append("Q")
         elif r < 0.955 and pauses:
             # back-pressure episode: the peer stops reading, something is issued, time passes, it reads again
             rid += 1
